@@ -370,7 +370,10 @@ SendNtf(sm, qm, r, res, slave, restart) ==
         IF ~sm.valid THEN SendFail(sm, "C02:success-reported-for-invalid-exchange")
         ELSE IF slave # sm.s THEN SendFail(sm, "C02:success-with-wrong-response-data")
         ELSE [sm EXCEPT !.okSeen = TRUE, !.dm = qm.master[r], !.cand = {}]     \* verdict given: later completions of r are new submissions
-     ELSE IF sm.valid THEN SendFail(sm, "C02:error-reported-for-valid-exchange") ELSE [SendEnd(sm) EXCEPT !.cand = {}]
+     ELSE IF sm.valid THEN SendFail(sm, "C02:error-reported-for-valid-exchange")
+     \* "transmits exactly the remaining master bytes": giving up while it is ebusd's turn, every echo matched and nothing failed
+     ELSE IF sm.ph \in {"m", "rq"} /\ ~sm.await THEN SendFail([SendEnd(sm) EXCEPT !.cand = {}], "C02:own-transmission-abandoned-without-cause")
+     ELSE [SendEnd(sm) EXCEPT !.cand = {}]
   ELSE IF res = 0 THEN SendFail(sm, "C02:success-reported-without-exchange") ELSE sm
 
 SendMsg(sm, qm, dir, master, slave) ==
